@@ -73,4 +73,4 @@ def report(res, index, wanted, rule="LABEL-1"):
                     res.bad(rule, f"{c.name}.{f.name}:{var}", f"{f.file}:{cmp_.lineno}", f"{c.name}.{f.name}: `{ast.unparse(cmp_)[:50]}` compares the loop "
                             f"counter `{var}` (the position of a vertex / face / edge in its list) with a constant: the result depends on how the "
                             "input happens to be labelled (it changes under a cyclic shift of the vertex list)")
-    res.ok(rule, f"{n} functions scanned, recogniser self-check passed", nontrivial=False)
+    res.ok(rule, "functions scanned, recogniser self-check passed", nontrivial=False, sample={"functions_scanned": n})
